@@ -16,8 +16,30 @@ import (
 // ---- C11: transaction tracking survives a clean restart (DD) ----------------------------------------------
 
 // c11Restart stops and restarts the node of a world and compares the unconfirmed set.
-func (w *txWorld) c11Restart() {
+func (w *txWorld) c11Restart() { w.c11RestartWith(nil) }
+
+// c11RestartWith: whileDown runs between the stop and the start of the new node.
+func (w *txWorld) c11RestartWith(whileDown func()) {
 	before := w.e.node.txs.VerifUnconfirmed()
+	w.e.node.blocks.Save(w.e.ctx)
+	w.e.node.txs.Save(w.e.ctx)
+	w.e.node.peers.Save(w.e.ctx)
+	if whileDown != nil {
+		// compare what the storage holds (a fresh repository loading it) before the peer's
+		// chain moves on
+		tr := storage.NewTxRepository(w.e.store)
+		if err := tr.Load(w.e.ctx); err == nil {
+			stored := tr.VerifUnconfirmed()
+			if len(stored) != len(before) {
+				w.find("C11", "C11/unconfirmed-lost", fmt.Sprintf("%d tracked before the stop, %d in the stored set", len(before), len(stored)))
+			}
+		}
+		whileDown()
+		if err := w.boot(w.e.store); err != nil {
+			w.find("C11", "C11/restart-failed", err.Error())
+		}
+		return
+	}
 	if err := w.restart(); err != nil {
 		w.find("C11", "C11/restart-failed", err.Error())
 		return
